@@ -31,7 +31,10 @@ TRUSTED = [
     "CPython posixpath.join/normpath/abspath (C `_path_normpath`), urllib.parse.unquote_to_bytes and the UTF-8 decoder, "
     "modelled by hand in C26/Model.lean and exercised by the correspondence stream",
     "os.path.isdir/exists/isfile answer for the exact string they are given (fixture tree without symlinks, case-sensitive POSIX filesystem)",
-    "the routing regex `<prefix>(.*)` is modelled as prefix stripping",
+    "the routing regexes `<prefix>(.*)`, `(.*)`, `/*(.*)` are modelled as prefix / slash-run stripping; the request-line grammar "
+    "(`httputil._ABNF.request_line`) as `validTarget` (non-empty, characters in [\\x21-\\x7e\\x80-\\xff])",
+    "the oracle's notion of 'the file the URL denotes' uses CPython posixpath.join/normpath and urllib.parse.unquote_to_bytes directly "
+    "(not the Lean model) plus the fixture listing",
 ]
 ASSUMPTIONS = [
     "the configured root is an absolute path (os.getcwd() is not modelled) and is not `/`",
@@ -55,7 +58,8 @@ CLAUSE_CAVEATS = [
 ]
 CLAUSES = {
     "serves, redirects or reveals existence only if the normalized absolute path lies inside root":
-        "served_inside_root + handle_inside_root (every filesystem query, opened file and redirect only after the root test passed on the "
+        "served_inside_spec / handle_inside_spec / handle_redirect_inside_spec (run level: every filesystem query, the opened file and the "
+        "redirected-for directory satisfy Spec.inside root) via served_inside_root + handle_inside_root (only after the root test passed on the "
         "normalized path) + normpath_no_dotdot/absolutePath_normalized (that path has no '..') + prefix_is_containment / "
         "root_test_is_containment (for an absolute root other than '/': string test <=> Spec.inside component-wise, same number of leading "
         "slashes); the oracle additionally applies Spec.inside to every recorded filesystem query",
